@@ -450,12 +450,13 @@ fn stack_index_arg(rng: &mut Rng, out: &mut Out) -> u64 {
             8 + rng.below(8)
         }
         8 => {
-            out.input_class("stack_index:65534/65535");
-            65534 + rng.below(2)
+            // 65535 (`index + 1` overflows) is exercised in a dedicated batch at the very end of the run
+            out.input_class("stack_index:65534");
+            65534
         }
         _ => {
             out.input_class("stack_index:random-u16");
-            rng.next() & 0xffff
+            (rng.next() & 0xffff).min(65534)
         }
     }
 }
@@ -735,5 +736,16 @@ pub fn run(out: &mut Out, rng: &mut Rng, tier: Tier) {
         let r = trap::run(|| st.load());
         emit_load(out, 1, base, r);
     }
+    // ---- last: histories containing set_stack_index(65535), whose `index + 1` overflows u16 (panic with
+    // overflow checks, wrap to 0 without). Kept at the end of the stream so that the cases of this one
+    // profile-dependent call never crowd out anything else in the list of failing lines.
+    for _ in 0..64 {
+        let mut ops = gen_history(rng, out);
+        let pos = 1 + rng.below(ops.len() as u64) as usize;
+        ops.insert(pos, (4, 65535));
+        out.input_class("stack_index:65535");
+        emit_entry(out, cs, &ops);
+    }
+    emit_entry(out, cs, &[(0, 4096), (4, 65535)]);
     out.notes.insert("traps".into(), format!("{}", trap::total_traps()));
 }
